@@ -55,4 +55,24 @@ Lemma wrong_commitment_rejects (h : K) gs ms bf c : c <> commit h gs ms bf ->
   verify_opening h gs c bf ms = false.
 Proof. intros Hc. unfold verify_opening. apply (feqb_false K). congruence. Qed.
 
+(** degenerate inputs: the map is the same formula when the blinding factor, or every message entry, is zero - no term is
+    dropped together with another one *)
+Lemma ip_zero_r (gs : list K) n : ip gs (repeat f0 n) = f0.
+Proof. revert n; induction gs as [|g gs IH]; intros [|n]; simpl; try reflexivity. rewrite IH. ring. Qed.
+
+Lemma commit_zero_bf (h : K) gs ms : commit h gs ms f0 = ip gs ms.
+Proof. unfold commit. ring. Qed.
+
+Lemma commit_zero_message (h : K) gs n bf : commit h gs (repeat f0 n) bf = h * bf.
+Proof. unfold commit. rewrite ip_zero_r. ring. Qed.
+
+Lemma zero_bf_still_binds (h : K) gs ms j v :
+  (j < length ms)%nat -> (j < length gs)%nat -> nth j gs f0 <> f0 -> v <> nth j ms f0 ->
+  verify_opening h gs (commit h gs ms f0) f0 (upd j v ms) = false.
+Proof. apply single_coordinate_rejects. Qed.
+
+Lemma zero_message_commitment_is_not_identity (h : K) gs n bf : h <> f0 -> bf <> f0 ->
+  commit h gs (repeat f0 n) bf <> f0.
+Proof. intros Hh Hb. rewrite commit_zero_message. now apply (fmul_neq0 K). Qed.
+
 End P.
